@@ -11,7 +11,7 @@ class Case:
         # ops: list of op strings; pbs: dict opno -> (problem dict current at that solve op)
     def text(self): return G.case_text(self.name, self.settings, self.ops)
 
-def gen_history(rng, name, focus="mixed", cp=64, max_updates=2, pb=None, force_settings=None):
+def gen_history(rng, name, focus="mixed", cp=64, max_updates=2, pb=None, force_settings=None, strong=False):
     """one random history.  focus in: mixed, single, updates, bounds, iters, scale"""
     if pb is None:
         kinds = None
@@ -52,7 +52,7 @@ def gen_history(rng, name, focus="mixed", cp=64, max_updates=2, pb=None, force_s
             if rng.random() < 0.7: ops.append(G.op_solve()); pbs[opno] = pb; opno += 1
             continue
         names = set(k for k in ["P", "c", "A", "b", "G", "h", "lb", "ub"] if rng.random() < 0.35)
-        pb, names = G.perturb(rng, pb, names)
+        pb, names = G.perturb(rng, pb, names, strong=strong)
         if pb["m"] > 0:
             if "G" in names:
                 if "h" not in names and zeroed:
